@@ -145,7 +145,7 @@ def generate(ctx):
     for i, (origin, h) in enumerate(X.systematic_histories(ctx.thorough())):
         if ctx.mine(i):
             yield 'history', {'history': h, 'origin': 'systematic:' + origin}
-    n = ctx.scale(112, 1250)
+    n = ctx.scale(112, 800)
     if os.environ.get('PVMON_C10_RANDOM'):      # debugging aid: shorter runs
         n = int(os.environ['PVMON_C10_RANDOM'])
     maxlen = 24 if ctx.thorough() else 16
